@@ -107,7 +107,12 @@ func (self *FieldMask) print(buf *strings.Builder, indent int, desc *thrift_refl
 	if self.typ == FtStruct {
 		st, err := structLikeDesc(desc)
 		if err != nil {
-			panic(err)
+			// the sub-mask of '*' is shared by all fields of a struct whatever
+			// their types: under a field that is no struct it selects the value
+			buf.WriteString(" (")
+			buf.WriteString(desc.GetName())
+			buf.WriteString(")\n")
+			return
 		}
 		if self.All() {
 			printIndent(buf, indent+2, "*\n")
